@@ -292,10 +292,20 @@ func (sc *collection) doBuild(ctx context.Context) (Provider, error) {
 		}
 	}
 
+	// Snapshot the registry: later changes to the collection must not affect the provider
+	services := make(map[TypeKey]*Descriptor, len(sc.services))
+	for k, v := range sc.services {
+		services[k] = v
+	}
+	groups := make(map[GroupKey][]*Descriptor, len(sc.groups))
+	for k, v := range sc.groups {
+		groups[k] = append([]*Descriptor(nil), v...)
+	}
+
 	p := &provider{
 		id:                          "p" + strconv.FormatUint(atomic.AddUint64(&providerIDCounter, 1), 36),
-		services:                    sc.services,
-		groups:                      sc.groups,
+		services:                    services,
+		groups:                      groups,
 		graph:                       g,
 		analyzer:                    sc.analyzer, // Share analyzer from collection
 		singletonKeys:               make([]instanceKey, 0, len(allDescriptors)),
